@@ -150,7 +150,8 @@ def ft_tasks(cases, quick, seed, impls):
         nd = len(case['shape'])
         strides = [STRIDES[(seed + ci + 2 * a) % len(STRIDES)] for a in range(nd)]
         for vi, (field, hcflag) in enumerate(variants(case['hc'], quick, ci)):
-            precs = (64, 32) if not quick else ((64,) if (ci + vi + seed) % 2 == 0 else (32,))
+            # both precisions for 1-d cases in the thorough tier; otherwise they alternate over (case, variant)
+            precs = (64, 32) if (not quick and nd == 1) else ((64,) if (ci + vi + seed) % 2 == 0 else (32,))
             for prec in precs:
                 for impl in impls:
                     tasks.append({'type': 'ft', 'case': case,
@@ -193,16 +194,18 @@ def driver_cases(quick, seed):
 
 
 def hist_concs(quick, impls):
+    """quick: shapes (5,), (3,4), float64 / complex128, a fresh T.inverse per call.  thorough: also a 3-d shape, and
+    for (3,4) additionally single precision and an inverse object that is created once and kept (its plan persists)."""
     concs = []
-    shapes = [(5,), (3, 4)] if quick else [(5,), (3, 4), (2, 3, 4)]
     for kind in ('dft', 'ft'):
         for impl in impls:
             for field, hcflag in (('C', False), ('R', True), ('R', False)):
-                for shape in shapes:
-                    for prec in ((64,) if quick or len(shape) != 2 else (64, 32)):
-                        for inv_mode in (('fresh',) if quick else ('fresh', 'cached')):
-                            concs.append({'kind': kind, 'impl': impl, 'field': field, 'hcflag': hcflag,
-                                          'shape': list(shape), 'prec': prec, 'inv_mode': inv_mode})
+                combos = [((5,), 64, 'fresh'), ((3, 4), 64, 'fresh')]
+                if not quick:
+                    combos += [((3, 4), 64, 'cached'), ((3, 4), 32, 'fresh'), ((2, 3, 4), 64, 'fresh')]
+                for shape, prec, inv_mode in combos:
+                    concs.append({'kind': kind, 'impl': impl, 'field': field, 'hcflag': hcflag,
+                                  'shape': list(shape), 'prec': prec, 'inv_mode': inv_mode})
     return concs
 
 
